@@ -46,10 +46,13 @@ def run_case(drv, cc, preds, history, want_spec=True):
             m_term = dc.norm_term(ctx, mt[n])
             p_term = dc.norm_term(ctx, dc.ref_choose(history, d, cc, preds, key))
             s_term = st.get(n)
+            lit = dc.norm_term(ctx, dc.ref_choose(history, d, cc, preds, key, literal=True))
             out.append({"dir": d, "ty": key, "I": res_i[n], "M": dc.expect(ctx, m_term, key, sample),
                         "P": dc.expect(ctx, p_term, key, sample), "m_term": m_term, "p_term": p_term,
-                        "s_term": s_term, "ctx": ctx})
+                        "s_term": s_term, "ctx": ctx, "literal_differs": lit != p_term})
     dc.prune_linecache()
+    for e in impl.reg_errors:
+        out.append({"regerr": e})
     return out
 
 
@@ -83,12 +86,18 @@ def check_case(chk, drv, cc, preds, history, corr_fail, stats):
                  + ":" + op["dir"])
         if op["op"] == "hook":
             chk.note("target:" + U.types[op["ty"]].shape)
+    for r in [r for r in rows if "regerr" in r]:
+        chk.violation("C07 oracle: a registration raised: " + r["regerr"], case)
+        stats["oracle_fail"] += 1
+    rows = [r for r in rows if "regerr" not in r]
     for r in rows:
         stats["probes"] += 1
         tn = U.types[r["ty"]].name
         chk.note("chosen:" + r["m_term"][0] + ("/builtin" if r["m_term"][0] == "made" and r["m_term"][1] in r["ctx"].beh else ""))
         if r["I"] == dc.ERR:
             chk.note("outcome:err")
+        if r["literal_differs"]:
+            chk.note("note:union-structure-hook-ranked-below-older-or-newer-user-predicate")
         where = f"[{cc.name()} {r['dir']} probe={tn} history={' ; '.join(dc.describe(o) for o in history)}]"
         if r["I"] != r["P"]:
             chk.violation(f"C07 oracle: result {r['I']!r} is not what the documented rule selects {r['P']!r} "
@@ -134,7 +143,7 @@ def run(chk: framework.Check):
             history = [dict(op, tag=i + 1) for i, op in enumerate(combo)]
             check_case(chk, drv, cc, alpha_preds, history, corr_fail, stats)
     # ---- random histories
-    n_rand = 260 if quick else 4000
+    n_rand = 1000 if quick else 12000
     max_ops = 12 if quick else 20
     for _ in range(n_rand):
         cc = gen_cfg(rng)
@@ -168,6 +177,10 @@ def replay(case):
         print("  ", dc.describe(op))
     rc = 0
     for r in run_case(drv, cc, preds, history):
+        if "regerr" in r:
+            print("registration raised:", r["regerr"])
+            rc = 1
+            continue
         if "probe" in case and (case["probe"]["dir"], case["probe"]["ty"]) != (r["dir"], r["ty"]):
             continue
         ok = r["I"] == r["P"]
